@@ -446,6 +446,19 @@ Theorem C02_spin_waker_not_lost : forall ssched ext w,
 Proof. exact spin_waker_not_lost. Qed.
 Print Assumptions C02_spin_waker_not_lost.
 
+(* the part of C02_spin_waker_not_lost that needs NO hypothesis on the workers: in every stuck
+   configuration of every run, a waker still inside the retry_on_active = false loop has an existing
+   target whose word is `active` — in particular no spinning waker's target is suspended (woken or
+   not), pending or terminated: the spin ends only through the ordinary non-active branch
+   (C02_spin_exit_is_ordinary_branch: wake-up CAS or return) *)
+Theorem C02_spin_waker_target_active_when_stuck : forall ssched ext,
+  let c := spin_run ssched ext in
+  sstuck c ->
+  forall a u, spinning (snd c a) u ->
+    u < ntasks (fst c) /\ st (tw_of (fst c) u) = st_active.
+Proof. exact (fun ssched ext => spinner_target_active_when_stuck (spin_run ssched ext)). Qed.
+Print Assumptions C02_spin_waker_target_active_when_stuck.
+
 (* the case in which the layer is exact — whatever still spins in the stuck configuration is an OS
    thread (no pool worker spins): the conclusion of C02_no_lost_wakeup, word for word, for runs with
    interrupts *)
